@@ -47,6 +47,16 @@ def run(check: Check):
   invs = roundcheck.inv_calls(ff)
   check.floor('R-WMEAN', 'tree_inverse_weight sites in apply', len(invs), 1)
   roundcheck.check_no_client_filter(check, repo, fi, clients_param)
+  # the state that goes into a round is the caller's: no function on the round's path donates its arguments
+  from fjsa.props import c10
+  c10.donation_scope(check, only_files=('fedjax/core/optimizers.py', 'fedjax/algorithms/fed_avg.py', 'fedjax/core/models.py'))
+  # every way out of apply goes through the server update: a round that returns the state it was given (e.g. "nothing to average")
+  # skips the optimizer step, which a stateful optimizer still has to take
+  for _, rv in ff.returns():
+    if isinstance(rv, ast.Tuple) and rv.elts and ff.param_of(rv.elts[0]) == state_param:
+      check.ob('R-ORDER.update', fi, 'return ' + txt(rv)[:60], False,
+               'apply returns the server state it was given: the server optimizer is not applied on this path, so its state (momentum, '
+               'Adam moments) is not advanced as the definition of the round requires', node=rv, exact=True)
   for inv in invs:
     lm = roundcheck.check_loop_mean_site(check, repo, fi, inv, triples, 'R-WMEAN', clients_param)
     if lm is None or lm.loop is None:
@@ -77,6 +87,7 @@ def run(check: Check):
   check.rule('R-MASK', 'parallel backend: padded steps / clients never change a real client\'s state or output (shared with C02)')
   c04.run(check, with_flags=False)
   c02._pmap(check)
+  c02._backend_runs(check)
   # zero guard of the normaliser (R-DIV) in tree_util
   da = DivAnalysis(repo)
   for q in ('tree_inverse_weight',):
